@@ -107,11 +107,16 @@ Variable V : Type.
 Variable r : Runner.                     (* the resolved settings *)
 Hypothesis r_wf : runner_wf r.
 
-Definition mrun (len : nat) (stop : nat -> bool) (sched : list nat) : sys :=
-  run len (match r_input_len r with Some _ => true | None => false end) stop
-      (m_dospawn r) (m_nextc r) (init (m_c0 r)) sched.
+Definition nopanic : nat -> bool := fun _ => false.
 
-Theorem mrun_GInv len stop sched : GInv len stop (m_maxt r) (mrun len stop sched).
+(** the general run: [panics i] = the chain's closures panic on source position [i] *)
+Definition mrunp (len : nat) (stop panics : nat -> bool) (sched : list nat) : sys :=
+  run len (match r_input_len r with Some _ => true | None => false end) stop panics
+      (m_dospawn r) (m_nextc r) (init (m_c0 r)) sched.
+Definition mrun (len : nat) (stop : nat -> bool) (sched : list nat) : sys :=
+  mrunp len stop nopanic sched.
+
+Theorem mrunp_GInv len stop panics sched : GInv len stop panics (m_maxt r) (mrunp len stop panics sched).
 Proof.
   assert (H1 : forall n h, m_dospawn r n h = true -> n + 2 <= m_maxt r)
     by (intros n h; apply m_dospawn_bound; exact r_wf).
@@ -121,9 +126,15 @@ Proof.
   apply run_GInv; auto. apply init_GInv; auto.
 Qed.
 
+Theorem mrun_GInv len stop sched : GInv len stop nopanic (m_maxt r) (mrun len stop sched).
+Proof. apply mrunp_GInv. Qed.
+
 Theorem mrun_outcome len stop sched :
   all_done (mrun len stop sched) -> Outcome len stop (ws (mrun len stop sched)).
-Proof. intros Hd. exact (final_outcome (m_maxt_pos r_wf) (mrun_GInv len stop sched) Hd). Qed.
+Proof.
+  intros Hd.
+  exact (final_outcome (m_maxt_pos r_wf) (mrun_GInv len stop sched) Hd (fun _ => eq_refl)).
+Qed.
 
 (** C08 (machine level): never more workers than [max_num_threads] *)
 Theorem mrun_threads len stop sched : length (ws (mrun len stop sched)) <= m_maxt r.
@@ -147,30 +158,37 @@ Proof.
   - apply m_c0_pos. exact r_wf.
 Qed.
 
+Theorem mrunp_SInv len stop panics sched : SInv len (mrunp len stop panics sched).
+Proof. apply (@run_SInv len known stop panics (m_dospawn r) (m_nextc r) (m_maxt r) (m_maxt_pos r_wf)). apply init_SInv. Qed.
 Theorem mrun_SInv len stop sched : SInv len (mrun len stop sched).
-Proof. apply (@run_SInv len known stop (m_dospawn r) (m_nextc r) (m_maxt r) (m_maxt_pos r_wf)). apply init_SInv. Qed.
+Proof. apply mrunp_SInv. Qed.
 
 (** after any schedule prefix, [phi] rounds of round robin complete the run *)
-Theorem mrun_completes len stop sched :
-  all_done (mrun len stop (sched ++ round_robin (m_maxt r) (phi len (m_maxt r) (mrun len stop sched)))).
+Theorem mrunp_completes len stop panics sched :
+  all_done (mrunp len stop panics
+              (sched ++ round_robin (m_maxt r) (phi len (m_maxt r) (mrunp len stop panics sched)))).
 Proof.
   destruct spawner_hyps as (H1 & H2 & H3 & H4).
-  unfold mrun, Machine.run. rewrite fold_left_app.
+  unfold mrunp, Machine.run. rewrite fold_left_app.
   apply all_doneb_spec.
-  apply (@rr_completes len known stop (m_dospawn r) (m_nextc r) (m_maxt r) H1 H2 H3); auto.
-  - apply mrun_GInv.
-  - apply mrun_SInv.
+  apply (@rr_completes len known stop panics (m_dospawn r) (m_nextc r) (m_maxt r) H1 H2 H3); auto.
+  - apply mrunp_GInv.
+  - apply mrunp_SInv.
 Qed.
 
+Theorem mrun_completes len stop sched :
+  all_done (mrun len stop (sched ++ round_robin (m_maxt r) (phi len (m_maxt r) (mrun len stop sched)))).
+Proof. apply mrunp_completes. Qed.
+
 (** no schedule contains more than [phi(init)] effective steps *)
-Theorem mrun_effective_bounded len stop sched :
-  effective len known stop (m_dospawn r) (m_nextc r) (init (m_c0 r)) sched
+Theorem mrun_effective_bounded len stop panics sched :
+  effective len known stop panics (m_dospawn r) (m_nextc r) (init (m_c0 r)) sched
   <= 5 * m_maxt r + 2 + 4 * len.
 Proof.
   destruct spawner_hyps as (H1 & H2 & H3 & H4).
-  pose proof (@effective_bounded len known stop (m_dospawn r) (m_nextc r) (m_maxt r) H1 H2 H3
+  pose proof (@effective_bounded len known stop panics (m_dospawn r) (m_nextc r) (m_maxt r) H1 H2 H3
                 (init (m_c0 r)) sched) as B.
-  assert (G0 : GInv len stop (m_maxt r) (init (m_c0 r))) by (apply init_GInv; auto).
+  assert (G0 : GInv len stop panics (m_maxt r) (init (m_c0 r))) by (apply init_GInv; auto).
   specialize (B G0 (init_SInv len (m_c0 r))).
   assert (E : phi len (m_maxt r) (init (m_c0 r)) = 5 * m_maxt r + 2 + 4 * len).
   { unfold phi, rem. cbn. lia. }
@@ -179,15 +197,16 @@ Qed.
 
 (** once the early-exit signal is out, the rest of the run takes a number of effective steps
     that depends on the thread bound and the chunk sizes only -- not on the remaining input *)
-Theorem mrun_after_signal len stop sched sched2 :
-  skipped (mrun len stop sched) = true ->
-  effective len known stop (m_dospawn r) (m_nextc r) (mrun len stop sched) sched2
-  <= 5 * m_maxt r + 3 + sum_list (map (fun w => 2 * csize w + 3) (ws (mrun len stop sched))).
+Theorem mrun_after_signal len stop panics sched sched2 :
+  skipped (mrunp len stop panics sched) = true ->
+  effective len known stop panics (m_dospawn r) (m_nextc r) (mrunp len stop panics sched) sched2
+  <= 5 * m_maxt r + 3 + sum_list (map (fun w => 2 * csize w + 3) (ws (mrunp len stop panics sched))).
 Proof.
   intros Hsk. destruct spawner_hyps as (H1 & H2 & H3 & H4).
-  pose proof (@effective_bounded len known stop (m_dospawn r) (m_nextc r) (m_maxt r) H1 H2 H3
-                (mrun len stop sched) sched2 (mrun_GInv len stop sched) (mrun_SInv len stop sched)) as B.
-  pose proof (phi_after_signal H3 (mrun_SInv len stop sched) Hsk) as P.
+  pose proof (@effective_bounded len known stop panics (m_dospawn r) (m_nextc r) (m_maxt r) H1 H2 H3
+                (mrunp len stop panics sched) sched2 (mrunp_GInv len stop panics sched)
+                (mrunp_SInv len stop panics sched)) as B.
+  pose proof (phi_after_signal H3 (mrunp_SInv len stop panics sched) Hsk) as P.
   lia.
 Qed.
 
